@@ -44,13 +44,13 @@ CHECKS = {
     "C05": (
         "model_checking",
         "Two product families of instances run through the real Instance::evaluate on every state of a per-instance alphabet and compared with an independent reference evaluator: (a) all (active, removed) constraint lists up to 2+2 whose values land on every side of the 1e-6 tolerance (-1,-2e-6,-5e-7,0,5e-7,1e-6,2e-6,1; both equalities; absent/unset functions; removal reasons incl. the empty string) x objectives x variable configurations; "
-        "(b) all 15 kind x bound shapes for a used and for an irrelevant variable x pre-fixed variable x dependency none/single/chain/quadratic, states on the grid, at bound edges +-5e-8 (accepted) and +-2e-7 (rejected), each variable missing, an extra undefined id. Oracle: objective, each constraint exactly once with value/equality/metadata/removal reason, both flags by the tolerance rule, reported state = given + fixed + dependent + nearest-to-zero fill, Err exactly for out-of-bound or missing used variables. Every dependency-map order is enumerated.",
+        "(b) all 15 kind x bound shapes for a used and for an irrelevant variable x pre-fixed variable x dependency none/single/chain/quadratic, states on the grid, at bound edges +-5e-8 (accepted) and +-2e-7 (rejected), each variable missing, an extra undefined id, a stale value supplied for a dependent variable; dependent values outside the dependent variable's declared bound. Oracle: objective, each constraint exactly once with value/equality/metadata/removal reason, both flags by the tolerance rule, reported state = given + fixed + dependent + nearest-to-zero fill, Err exactly for out-of-bound or missing used variables. Every dependency-map order is enumerated.",
         "Flags are asserted against the rule applied to the SDK-reported values, which are themselves compared with exact values. Values exactly at bound+-1e-7 are outside the alphabet (skipped_too_close_to_threshold must be 0).",
         "bounded exhaustive enumeration of (instance, state) on the real code vs reference evaluator",
     ),
     "C06": (
         "model_checking",
-        "Every Samples message with k sample ids (every ordered set partition of the ids into entries x every assignment of one of 4 pool states to each entry; the pool contains a state omitting the irrelevant variable, two different states with equal objective and constraint values, and a duplicate; k<=3 quick / k<=4 thorough in full (thorough also k=5 in full on every 8th instance), k=5,6 over a 2-state pool, k=7,8 structured; plus every add_sample insertion order for k=3) over an instance family (irrelevant-variable bound shapes, pre-fixed variable whose value one pool state contradicts, a pool value 5e-8 beyond a bound (inside evaluate's tolerance), dependency none/single/chain, active+removed constraints (removal reasons incl. the empty string), constraint values exactly on the +-1e-6 tolerance, objectives in quirky representations: split constants, explicit zeros, degree-0 polynomials), through the real evaluate_samples and SampleSet::get; each extracted Solution compared field by field (and as a whole message) with Instance::evaluate of that sample's state; objective/feasibility/constraint tables must be keyed by exactly the submitted ids; samples whose state omits a variable the problem uses (alone, or beside a complete sample in either order) must make evaluate_samples fail exactly when Instance::evaluate fails on them.",
+        "Every Samples message with k sample ids (every ordered set partition of the ids into entries x every assignment of one of 4 pool states to each entry; the pool contains a state omitting the irrelevant variable, two different states with equal objective and constraint values, and a duplicate; k<=3 quick / k<=4 thorough in full (thorough also k=5 in full on every 8th instance), k=5,6 over a 2-state pool, k=7,8 structured; plus every add_sample insertion order for k=3) over an instance family (irrelevant-variable bound shapes, pre-fixed variable whose value one pool state contradicts and which is followed by unused variables, a pool value 5e-8 beyond a bound (inside evaluate's tolerance), dependency none/single/chain, active+removed constraints (removal reasons incl. the empty string), constraint values exactly on the +-1e-6 tolerance, objectives in quirky representations: split constants, explicit zeros, degree-0 polynomials), through the real evaluate_samples and SampleSet::get; each extracted Solution compared field by field (and as a whole message) with Instance::evaluate of that sample's state; objective/feasibility/constraint tables must be keyed by exactly the submitted ids; samples whose state omits a variable the problem uses (alone, or beside a complete sample in either order) must make evaluate_samples fail exactly when Instance::evaluate fails on them.",
         "Differential oracle: Instance::evaluate, itself verified against the reference evaluator by C05. All pool states are in-bound; a state that evaluate rejects lacks a used variable.",
         "bounded exhaustive enumeration of Samples messages (all groupings) on the real code, differential vs the single-state path",
     ),
@@ -74,7 +74,7 @@ CHECKS = {
     ),
     "C12": (
         "model_checking",
-        "log_encode on every integer range: every width 0..=4096 x 8 lower ends (-2^20 .. 2^20-w) x fractional offsets {0,.25,.5,.75,1-5e-7} on both ends, the value set over ALL 2^n bit patterns computed as the subset-sum set of the returned integer coefficients and required to be exactly ceil(l)..floor(u) (for widths <= 64 additionally the SDK's own evaluate on every pattern); every width 1..2^21 at three lower ends through the complete-sequence criterion (necessary and sufficient for positive integers; cross-validated against brute force on all widths <= 4096). Registration of the new binaries (fresh ids under two list layouts that make last-element and list-length id schemes collide, kind binary, bound [0,1], tagged with the encoded id), single-integer range => constant; a second call on the same variable (same or changed bound) must again use fresh ids and cover the new range; widths 0..=129 and every error condition are repeated after a real partial_evaluate fixed the encoded variable (either end / middle of the range) or another variable. Every error condition: unknown id, each non-integer kind, absent bound, no integer in bound, NaN bounds, and the infinite bounds in an rlimit'd (1 GiB) subprocess with a 10 s watchdog, where abort/kill/timeout is the violating outcome; failed calls must leave the instance unchanged.",
+        "log_encode on every integer range: every width 0..=4096 x 8 lower ends (-2^20 .. 2^20-w) x fractional offsets {0,.25,.5,.75,1-5e-7} on both ends, the value set over ALL 2^n bit patterns computed as the subset-sum set of the returned integer coefficients and required to be exactly ceil(l)..floor(u) (for widths <= 64 additionally the SDK's own evaluate on every pattern); every width 1..2^21 at three lower ends through the complete-sequence criterion (necessary and sufficient for positive integers; cross-validated against brute force on all widths <= 4096). Registration of the new binaries (fresh ids under two list layouts that make last-element and list-length id schemes collide, kind binary, bound [0,1], tagged with the encoded id), single-integer range => constant; a second call on the same variable (same or changed bound) must again use fresh ids and cover the new range; widths 0..=129 and every error condition are repeated after a real partial_evaluate fixed the encoded variable (either end / middle of the range) or another variable. Every error condition: unknown id (also on an instance without variables), each non-integer kind, absent bound, no integer in bound, NaN bounds, and the infinite bounds in an rlimit'd (1 GiB) subprocess with a 10 s watchdog, where abort/kill/timeout is the violating outcome; failed calls must leave the instance unchanged.",
         "Trusted: subset-sum DP over exact integer coefficients equals enumeration of bit patterns. Subprocess isolation via fork/exec of the harness binary with RLIMIT_AS.",
         "exhaustive enumeration of integer ranges x all bit patterns on the real code; fault enumeration of error conditions incl. subprocess-isolated non-termination",
     ),
@@ -92,7 +92,7 @@ CHECKS = {
     ),
     "C15": (
         "model_checking",
-        "(a) as_minimization_problem on every objective of the medium representation family (plus objectives with 2^-60 coefficients, which exact negation keeps) x both senses, once and twice: sense, objective == +-f as exact polynomials, every other field untouched, idempotent, identical ranking of all pairs of grid states. (b) every sample set with k<=6 (quick) / k<=7 (thorough; k=8 over two objective values) samples where each sample independently takes one of 3 objective values (so ties occur) and one of 3 feasibility classes (infeasible / feasible for remaining constraints only / feasible for all), produced by the real evaluate_samples, x both senses x {current fields, legacy fields decoded by prost} x {values grouped by state as evaluate_samples writes them, regrouped by value as another writer may}, for k<=4 also with objective values -inf / +inf, with values -2^-60 / 0 / 2^-60 and with the relaxed constraint carrying the empty reason (listed so, or after a real relax_constraint(id, \"\")): the returned id is feasible in the requested sense and unbeaten under the set's sense, Err exactly when no sample is feasible; feasible-id sets and the best Solution getters agree.",
+        "(a) as_minimization_problem on every objective of the medium representation family (plus objectives with 2^-60 coefficients, which exact negation keeps) x both senses, once and twice: sense, objective == +-f as exact polynomials, every other field untouched, idempotent, identical ranking of all pairs of grid states. (b) every sample set with k<=6 (quick) / k<=7 (thorough; k=8 over two objective values) samples where each sample independently takes one of 3 objective values (so ties occur) and one of 3 feasibility classes (infeasible / feasible for remaining constraints only / feasible for all), produced by the real evaluate_samples, x both senses x {current fields, legacy fields (tag 4 + tag 6) decoded by prost; for k<=4 also the older tag-4-only layout, id getters only} x {values grouped by state as evaluate_samples writes them, regrouped by value as another writer may}, for k<=4 also with objective values -inf / +inf, with values -2^-60 / 0 / 2^-60 and with the relaxed constraint carrying the empty reason (listed so, or after a real relax_constraint(id, \"\")): the returned id is feasible in the requested sense and unbeaten under the set's sense, Err exactly when no sample is feasible; feasible-id sets and the best Solution getters agree.",
         "Legacy = tag 4 holds remaining-constraint feasibility, tag 6 all-constraint feasibility, tag 7 absent. Unspecified sense and unset-oneof objectives are outside the alphabet.",
         "bounded exhaustive enumeration of (objective, sense) and of sample-set feasibility/objective patterns on the real code",
     ),
@@ -116,25 +116,25 @@ CHECKS = {
     ),
     "C18": (
         "model_checking",
-        "Every linear instance of the product: 1..2 (quick) / 1..3 (thorough) used variables with ids {4,9,1} in rotated list order plus an unused variable with the largest id, each over 30 kind x bound specs (incl. endpoints exactly 0, degenerate and huge finite bounds) (continuous/integer x {absent,[0,1],[-3,5],[2,inf),(-inf,4],(-inf,inf),[-5,-1],[0,0],[0,inf),[-3,0],(-inf,0],[1,1]}, binary x {absent,[0,1],[0,0],[1,1]}) x objective forms x constraint lists (0..2, = / <=, constant-only included, ids {40,3}) with function variants rotating over every message type able to hold a linear function incl. unnormalised ones (a term listed twice, unsorted), names on some variables / constraints, both senses; written with mps::write_file and read back with mps::load_file in a private scratch directory (file called *.mps.gz or *.mps). Oracle: same sense, objective and every constraint equal as polynomials under the same variable and constraint ids with the same equality, same effective value domain (integrality + bounds, unset = unbounded, binary = integer in [0,1]) for every mathematically used variable. Nonlinear objective / constraint (4 shapes, each position) must be refused with the error variant naming the offender.",
+        "Every linear instance of the product: 1..2 (quick) / 1..3 (thorough) used variables with ids {4,9,1} in rotated list order plus an unused variable with the largest id, each over 30 kind x bound specs (incl. endpoints exactly 0, degenerate and huge finite bounds, fractional bounds on integer variables) (continuous/integer x {absent,[0,1],[-3,5],[2,inf),(-inf,4],(-inf,inf),[-5,-1],[0,0],[0,inf),[-3,0],(-inf,0],[1,1]}, binary x {absent,[0,1],[0,0],[1,1]}) x objective forms x constraint lists (0..2, = / <=, constant-only included, ids {40,3}) with function variants rotating over every message type able to hold a linear function incl. unnormalised ones (a term listed twice, unsorted) and a 2^-60 coefficient, names on some variables / constraints, both senses; written with mps::write_file and read back with mps::load_file in a private scratch directory (file called *.mps.gz or *.mps). Oracle: same sense, objective and every constraint equal as polynomials under the same variable and constraint ids with the same equality, same effective value domain (integrality + bounds, unset = unbounded, binary = integer in [0,1]) for every mathematically used variable. Nonlinear objective / constraint (4 shapes, each position) must be refused with the error variant naming the offender.",
         "Unnormalised (repeated-id) linear terms are outside the alphabet; variables not mathematically used are not compared (the property restricts to used variables).",
         "bounded exhaustive enumeration of linear instances through the real writer+reader round trip",
     ),
     "C19": (
         "model_checking",
-        "Abstract QP models for EACH of the 120 problem-type codes (objective L/D/C/Q x variables C/B/M/I/G x constraints N/B/L/D/C/Q) x sizes up to n=5, m=4 (incl. m=0 under every constraint kind) x a deterministic sweep (210 quick / 840 thorough per code and size) that visits every value of every content dimension: Q0 diagonal / off-diagonal patterns, default b0 with non-defaults incl. an explicit zero, q0, per-constraint Qi / bi (constraints without linear entries: none / the last / the first / all), constraint sides finite / exactly at the infinity value / beyond it / equal, variable bounds likewise, variable types, names, infinity value 1e20 or 50, sense; 5 layouts (comment lines with ! # %, blank lines, trailing text after values, lower-case keywords, sparse sections in ascending or descending index order). Rendered by the harness's own QPLIB writer, loaded with qplib::load_file or qplib::load_file_bytes + decode. Expected problem from the model: objective 1/2 x'Q0x + b0'x + q0 assembled from the lower triangle (diagonal entry v -> v/2 x_i^2), one <=0 constraint per finite side with the right signs, unique constraint ids, variable kinds/bounds/names. Fault files on 6 representative codes x 2 layouts: each type-code character invalid, too short, invalid sense, every count non-numeric / negative / fractional, every number and entry value / index unparsable, and truncation after EVERY line => Err whose message carries the line number of the fault.",
+        "Abstract QP models for EACH of the 120 problem-type codes (objective L/D/C/Q x variables C/B/M/I/G x constraints N/B/L/D/C/Q) x sizes up to n=5, m=4 (incl. m=0 under every constraint kind) x a deterministic sweep (210 quick / 840 thorough per code and size) that visits every value of every content dimension: Q0 diagonal / off-diagonal patterns, default b0 with non-defaults incl. an explicit zero, q0, per-constraint Qi / bi (constraints without linear entries: none / the last / the first / all), constraint sides finite / exactly at the infinity value / beyond it / equal, variable bounds likewise, variable types, names, infinity value 1e20 or 50, sense; 5 layouts (comment lines with ! # %, also indented, blank lines, trailing text after values, lower-case keywords, sparse sections in ascending or descending index order). Rendered by the harness's own QPLIB writer, loaded with qplib::load_file or qplib::load_file_bytes + decode. Expected problem from the model: objective 1/2 x'Q0x + b0'x + q0 assembled from the lower triangle (diagonal entry v -> v/2 x_i^2), one <=0 constraint per finite side with the right signs, unique constraint ids, variable kinds/bounds/names. Fault files on 6 representative codes x 2 layouts: each type-code character invalid, too short, invalid sense, every count non-numeric / negative / fractional, every number and entry value / index unparsable, and truncation after EVERY line => Err whose message carries the line number of the fault.",
         "Format assumption: the two trailing name sections are always written. Outside the alphabet: out-of-range indices, upper-triangle or repeated entries.",
         "bounded exhaustive enumeration of type codes x content sweep rendered by an independent writer; fault enumeration incl. every truncation point",
     ),
     "C20": (
         "model_checking",
-        "Explicit exploration of add-operation histories: every sequence of length 0..3 (quick) / 0..4 (thorough, 70k archives) over the 16-action alphabet (4 layer kinds x {empty message whose bytes coincide across kinds so digests collide, non-trivial message with unsorted variable / constraint / parameter lists and repeated terms} x {no annotations, all annotations}) and longer histories (to 5 / 6) over a sub-alphabet; each history is replayed from scratch through the real Builder::new_archive_unnamed..build() into a local OCI archive in a private scratch directory, reopened with Artifact::from_oci_archive and compared with a Vec<(media type, bytes, annotations)> reference: manifest order / media types / sha256 digests (computed with sha2) / annotations; get_layer by digest; typed getter of the stored kind returns an equal message and annotations, the other three fail; unknown digest fails; per-kind descriptor sub-sequences; positional listings get_instances / get_solutions. Annotation accessors: every single field, every pair of fields and all fields at once for the four annotation types (title, 1 and 3 authors incl. names and titles with leading / trailing blanks, created with sub-second precision and non-UTC offsets, licence, dataset, counts, user keys, start/end, instance and solver digests, parameters) after the archive round trip. An image with a foreign artifact type, or a plain image manifest without artifactType, must not yield a manifest; archives written without the SDK's builder (ocipkg + the published media types and annotation keys, which are literals in the harness) must be readable; the stored hex under another digest algorithm is an unknown digest.",
+        "Explicit exploration of add-operation histories: every sequence of length 0..3 (quick) / 0..4 (thorough, 70k archives) over the 16-action alphabet (4 layer kinds x {empty message whose bytes coincide across kinds so digests collide, non-trivial message with unsorted variable / constraint / parameter lists and repeated terms} x {no annotations, all annotations}) and longer histories (to 5 / 6) over a sub-alphabet; each history is replayed from scratch through the real Builder::new_archive_unnamed..build() into a local OCI archive in a private scratch directory, reopened with Artifact::from_oci_archive and compared with a Vec<(media type, bytes, annotations)> reference: manifest order / media types / sha256 digests (computed with sha2) / annotations; get_layer by digest; typed getter of the stored kind returns an equal message and annotations, the other three fail; unknown digest fails; per-kind descriptor sub-sequences; positional listings get_instances / get_solutions. Annotation accessors: every single field, every pair of fields and all fields at once for the four annotation types (title, 1 and 3-4 authors incl. an empty first name and names and titles with leading / trailing blanks, created with sub-second precision and non-UTC offsets, licence, dataset, counts, user keys, start/end, instance and solver digests, parameters) after the archive round trip. An image with a foreign artifact type, or a plain image manifest without artifactType, must not yield a manifest; archives written without the SDK's builder (ocipkg + the published media types and annotation keys, which are literals in the harness) must be readable; the stored hex under another digest algorithm is an unknown digest.",
         "With equal digests a digest-only lookup cannot distinguish layers: typed getters are asserted against the first layer with that digest (see evidence assumptions); positional listings are asserted strictly. No registry access (local archives only).",
         "explicit-state exploration of operation histories on the real builder/reader vs a Vec reference model",
     ),
     "C07": (
         "model_checking",
-        "The model is the schema itself, parsed from proto/ommx/v1/*.proto by the harness's own parser (31 messages, 121 fields, 5 enums). (1) Binding the model to the implementations, exhaustively over every message / field / enum value: the prost attributes of rust/ommx/src/ommx.v1.rs (struct <-> message, field name, tag, type, optional/repeated/map/oneof, enum discriminants and as_str_name tables), the serialized FileDescriptorProto embedded in each python/ommx/ommx/v1/*_pb2.py (extracted with ast, decoded with the harness's own wire decoder) and the field lists of the .pyi stubs must all equal the model. (2) Every model state of every message type is replayed on the real prost code: every subset of field slots (all subsets for <= 8 slots, size <= 3 otherwise) x every alternative value per slot (repeated with 1-2 elements, maps with 1-2 entries, each oneof arm, nested messages populated one level deep and present-but-empty, every declared enum value and an undeclared one, explicit-presence defaults), encoded by the harness's own schema-driven encoder in 5 encodings (packed / unpacked repeated scalars, reversed field order, appended unknown fields of every wire type) -> M::decode must succeed -> the set of Rust fields that changed (read from the Debug rendering, which names every Rust field) must be exactly the fields sent and enum values must render as the schema's names -> encode_to_vec -> the harness's own decoder must recover the content with schema-conforming wire types -> decode(encode(m)) == m. (3) the byte-returning loaders mps::load_file_bytes / qplib::load_file_bytes must return bytes that decode to the loaded instance; data/random_lp_instance.ommx, written by an earlier release, must open, decode, validate and re-encode to an equal message; archives written by another conforming implementation (ocipkg + the published media types / annotation keys as literals) must be readable through the typed getters and positional listings, as one- and two-layer archives (every ordered pair of kind x empty / non-trivial message).",
+        "The model is the schema itself, parsed from proto/ommx/v1/*.proto by the harness's own parser (31 messages, 121 fields, 5 enums). (1) Binding the model to the implementations, exhaustively over every message / field / enum value: the prost attributes of rust/ommx/src/ommx.v1.rs (struct <-> message, field name, tag, type, optional/repeated/map/oneof, enum discriminants and as_str_name tables), the serialized FileDescriptorProto embedded in each python/ommx/ommx/v1/*_pb2.py (extracted with ast, decoded with the harness's own wire decoder) and the field lists of the .pyi stubs must all equal the model. (2) Every model state of every message type is replayed on the real prost code: every subset of field slots (all subsets for <= 8 slots, size <= 3 otherwise) x every alternative value per slot (repeated with 1-2 elements, maps with 1-2 entries, each oneof arm, nested messages populated one level deep and present-but-empty, every declared enum value and an undeclared one, explicit-presence defaults), encoded by the harness's own schema-driven encoder in 5 encodings (packed / unpacked repeated scalars, reversed field order, appended unknown fields of every wire type) -> M::decode must succeed -> the set of Rust fields that changed (read from the Debug rendering, which names every Rust field) must be exactly the fields sent and enum values must render as the schema's names -> encode_to_vec -> the harness's own decoder must recover the content with schema-conforming wire types -> decode(encode(m)) == m. (3) the byte-returning loaders mps::load_file_bytes / qplib::load_file_bytes must return bytes that decode to the loaded instance; data/random_lp_instance.ommx, written by an earlier release, must open, decode, validate and re-encode to an equal message; archives written by another conforming implementation (ocipkg + the published media types / annotation keys as literals) must be readable through the typed getters and positional listings, as one- and two-layer archives (every ordered pair of kind x empty / non-trivial message); the same pairs written by the SDK's own builder are read back through C20's sequence check.",
         "No Python protobuf runtime is installed: the Python classes are not executed; their embedded descriptors are compared statically. Trusted base of the static step (prost's derive honours its attributes) is exactly what the dynamic step checks. python3 (stdlib only) is used for the three schema scrapers.",
         "explicit enumeration of schema states replayed on the real codec through an independent codec, plus exhaustive static binding of the schema model to the generated bindings",
     ),
